@@ -7,31 +7,33 @@ SPEC = {
     "driver": "Driver/C25.lean",
     "needs_plz": False,
     "level": "proof",
-    "level_text": "partial: proved for every graph — the keep set contains every initial root and is closed under declared and "
-                  "resolved dependencies; without gc_sibling labels nothing below an initial root is proposed for removal (with "
-                  "--conservative that is the whole property); no SOURCE file of a kept target is proposed for deletion. "
-                  "The property as stated is VIOLATED in four ways (machine-checked witnesses + C25_not_safe_targets): gc_sibling "
-                  "redirection, single-pass test handling, rules of needed hidden sub-targets, data files. "
-                  "Theorems are about the transcription Model/GC.lean; subrepos, `//pkg/...` arguments, wildcard labels and the "
-                  "BUILD file rewriting are not modelled",
-    "technique": "Lean 4 DFS-closure invariant for addTarget lifted through every pass + concrete witnesses + regenerated "
+    "level_text": "full for the repaired code: no needed target is proposed for removal (C25_targets), nor the rule of a needed hidden "
+                  "sub-target (C25_subtargets), and no file a needed target uses as source or data is proposed for deletion (C25_srcs), for "
+                  "every graph, gc_sibling labels, tests of tests and all arguments; `Needed` is the least fixpoint of roots, dependencies and "
+                  "'a test of a needed target'. The four defects of the pinned code were repaired with fix: commits (9dea07a, 0ef96ba, f5ccc0d, "
+                  "031fda8). Theorems are about the transcription Model/GC.lean and conditional on the model not reaching its recursion bound "
+                  "(proved unreachable with --conservative); subrepos, `//pkg/...` arguments, wildcard labels and the BUILD file rewriting are "
+                  "not modelled",
+    "technique": "Lean 4 DFS-closure invariant for addTarget lifted through every pass, fixpoint closure of the repeated test pass, completeness of publicDependencies + regenerated "
                  "facts + differential correspondence with an independent least-fixpoint oracle",
     "trusted": [
         "go/ast extractor harness/extract/c25 (passes of targetsToRemove in order, addTarget, publicDependencies, gcSibling, isIncluded; parameters by position, locals by declaration order)",
         "correspondence harness/cmd/c25 vs Driver/C25.lean: exact removal lists (targets and files) of gc.GarbageCollect in dry-run mode on random graphs with binaries, tests, "
         "test_only targets, hidden sub-targets, gc_sibling labels, shared source/data files, filters, named/command-line/subinclude roots, provide/require, and planted delicate shapes",
         "modelled, not verified: Model/GC.lean transcribes targetsToRemove, addTarget, publicDependencies, gcSibling, isIncluded",
-        "direct oracle: independent least-fixpoint computation of the needed set in the harness, with class predicates for the four known root causes",
+        "direct oracle: independent least-fixpoint computation of the needed set in the harness, with class predicates for the four (repaired) root causes",
     ],
     "assumptions": [
         "exact labels only in filter / keep / command-line arguments (label wildcards are C20's subject); no subrepos",
         "the dependency graph is acyclic (C06): publicDependencies has no visited set and does not terminate on a cycle inside one rule",
     ],
-    "explanation": "C25_targets_partial, C25_targets_conservative_partial, C25_srcs_partial hold for all graphs; the C25_witness_* "
-                   "theorems exhibit the four known findings and are replayed on the real code from corpus/C25/known-*.ops.",
+    "explanation": "C25_targets, C25_subtargets, C25_srcs hold for all graphs; the shapes of the four repaired findings are replayed on the "
+                   "real code from corpus/C25/fixed-*.ops on every run and must pass the oracle.",
 }
 
 MUTATIONS = """
+(The dry-runs below were made before the four fix: commits; after the repair each of the four old behaviours is itself a mutation
+that must be caught: see the end of this block.)
 Dry-runs on scratch copies of /repo (src/gc/gc.go); as for C23 the steps of `./check C25 quick` were run one by one with
 private output directories (the shared lake lock was saturated), the four known classes loaded.
  M1 addTarget ignores Dependencies() (`[:0]`)              -> C25_facts_ok fails; 34 disagreements; NEW classes gc-removes-needed-other (36),
